@@ -123,3 +123,345 @@ def s_get_all(vc):
     match = [same_name(vc, names[i], key) for i in range(n)]
     ensure_filter(vc, "values", out.result, [(match[i], native_(vc, vals[i])) for i in range(n)])
     ensure_fields_unchanged(vc, "pure", h, names, vals)
+
+
+def seq_result(out):
+    """items of a result that is a list/tuple in proof mode and possibly a generator natively (then drained into trace)"""
+    r = out.result
+    if r is None or isnone(r):
+        return list(out.trace)
+    return items_of(r)
+
+
+def folded(parts):
+    """', '.join(s for (cond, s) in parts if cond)  (RFC 9110 §5.3: combined field value)"""
+    acc, seen = "", False
+    for c, s in parts:
+        acc = If(c, If(seen, acc + ", " + s, s), acc)
+        seen = Or(seen, c)
+    return acc
+
+
+@scenario("getitem", functions=[MD + ".__getitem__", H + ".get_all", H + "._reduce_values"])
+def s_getitem(vc):
+    n = vc.case("n", LENS)
+    h, names, vals = mk_headers(vc, n)
+    key = vc.sym_bytes("key")
+    out = vc.call(MD + ".__getitem__", h, key)
+    match = [same_name(vc, names[i], key) for i in range(n)]
+    present = Or(*match) if n else False
+    vc.ensure("keyerror_iff_absent", Iff(not out.ok, Not(present)))
+    if not out.ok:
+        vc.ensure("raises_only_keyerror", issubclass(out.raised_type(), KeyError))
+    else:
+        vc.ensure("folded_in_order", out.result == folded([(match[i], native_(vc, vals[i])) for i in range(n)]))
+    ensure_fields_unchanged(vc, "pure", h, names, vals)
+
+
+@scenario("contains_get", functions=["_collections_abc:Mapping.__contains__", "_collections_abc:Mapping.get", MD + ".__getitem__"])
+def s_contains(vc):
+    n = vc.case("n", LENS[:4])
+    h, names, vals = mk_headers(vc, n)
+    key = vc.sym_bytes("key")
+    match = [same_name(vc, names[i], key) for i in range(n)]
+    present = Or(*match) if n else False
+    out = vc.call("_collections_abc:Mapping.__contains__", h, key)
+    vc.ensure("contains.no_exception", out.ok)
+    if out.ok:
+        vc.ensure("contains.iff_some_field_matches", Iff(out.result, present))
+    default = vc.sym_str("default")
+    out = vc.call("_collections_abc:Mapping.get", h, key, default)
+    vc.ensure("get.no_exception", out.ok)
+    if out.ok:
+        vc.ensure("get.value_or_default", out.result == If(present, folded([(match[i], native_(vc, vals[i])) for i in range(n)]), default))
+    ensure_fields_unchanged(vc, "pure", h, names, vals)
+
+
+# ---------------------------------------------------------------------------------------------------------------
+# updates
+
+def spec_set_all(vc, names, vals, key, new):
+    """post-state of set_all(key, new) as [(kept?, (name, value))]: the first min(#old, #new) fields of that name get the
+    new values in place (spelling kept), surplus old ones disappear, surplus new ones are appended under `key`;
+    every other field keeps spelling, value and relative order."""
+    n, m = len(names), len(new)
+    match = [same_name(vc, names[i], key) for i in range(n)]
+    spec = []
+    for i in range(n):
+        c_i = count(match[:i])
+        keep = Or(Not(match[i]), c_i < m)
+        val = If(match[i], pick(new, c_i), vals[i]) if m else vals[i]
+        spec.append((keep, (names[i], val)))
+    total = count(match)
+    for j in range(m):
+        spec.append((total <= j, (key, new[j])))
+    return spec
+
+
+def _mk_set_all(m):
+    @scenario(f"set_all[values={m}]", functions=[H + ".set_all", MD + ".set_all"])
+    def s_set_all(vc):
+        n = vc.case("n", LENS)
+        h, names, vals = mk_headers(vc, n)
+        key = vc.sym_bytes("key")
+        new = [vc.sym_bytes(f"new{j}") for j in range(m)]
+        arg = vc.list(new)
+        out = vc.call(H + ".set_all", h, key, arg)
+        vc.ensure("no_exception", out.ok)
+        if not out.ok:
+            return
+        ensure_filter(vc, "post", fields_of(vc, h), spec_set_all(vc, names, vals, key, new), eq=pair_eq)
+        vc.ensure("frame", state_keys(vc, h) == ["fields"])
+        vc.ensure("callers_list_untouched", len(items_of(arg)) == m)
+
+    return s_set_all
+
+
+for _m in range(4):
+    _mk_set_all(_m)
+
+
+@scenario("setitem", functions=[MD + ".__setitem__", H + ".set_all", MD + ".set_all"])
+def s_setitem(vc):
+    n = vc.case("n", LENS)
+    h, names, vals = mk_headers(vc, n)
+    key = vc.sym_bytes("key")
+    value = vc.sym_bytes("value")
+    out = vc.call(MD + ".__setitem__", h, key, value)
+    vc.ensure("no_exception", out.ok)
+    if not out.ok:
+        return
+    ensure_filter(vc, "post", fields_of(vc, h), spec_set_all(vc, names, vals, key, [value]), eq=pair_eq)
+    vc.ensure("frame", state_keys(vc, h) == ["fields"])
+
+
+@scenario("delitem", functions=[H + ".__delitem__", MD + ".__delitem__"])
+def s_delitem(vc):
+    n = vc.case("n", LENS)
+    h, names, vals = mk_headers(vc, n)
+    key = vc.sym_bytes("key")
+    out = vc.call(H + ".__delitem__", h, key)
+    match = [same_name(vc, names[i], key) for i in range(n)]
+    present = Or(*match) if n else False
+    vc.ensure("keyerror_iff_absent", Iff(not out.ok, Not(present)))
+    if not out.ok:
+        vc.ensure("raises_only_keyerror", issubclass(out.raised_type(), KeyError))
+        ensure_fields_unchanged(vc, "absent", h, names, vals)
+        return
+    ensure_filter(vc, "post", fields_of(vc, h), [(Not(match[i]), (names[i], vals[i])) for i in range(n)], eq=pair_eq)
+    vc.ensure("frame", state_keys(vc, h) == ["fields"])
+
+
+def insert_pos(index, n):
+    """position at which list.insert / slicing places an item (Python sequence semantics: negative counts from the end, clamped)"""
+    return If(index >= 0, If(index > n, n, index), If(n + index < 0, 0, n + index))
+
+
+def ensure_inserted(vc, tag, post, names, vals, p, item):
+    n = len(names)
+    vc.ensure(tag + ".len", len(post) == n + 1)
+    if len(post) != n + 1:
+        return
+    old = [(names[i], vals[i]) for i in range(n)]
+    for j in range(n + 1):
+        conds = [Implies(p == j, pair_eq(post[j], item))]
+        if j < n:
+            conds.append(Implies(j < p, pair_eq(post[j], old[j])))
+        if j >= 1:
+            conds.append(Implies(j > p, pair_eq(post[j], old[j - 1])))
+        vc.ensure(f"{tag}.at[{j}]", And(*conds))
+
+
+@scenario("insert", functions=[H + ".insert", MD + ".insert"])
+def s_insert(vc):
+    n = vc.case("n", LENS)
+    h, names, vals = mk_headers(vc, n)
+    key, value = vc.sym_bytes("key"), vc.sym_bytes("value")
+    index = vc.sym_int("index")
+    out = vc.call(H + ".insert", h, index, key, value)
+    vc.ensure("no_exception", out.ok)
+    if not out.ok:
+        return
+    ensure_inserted(vc, "post", fields_of(vc, h), names, vals, insert_pos(index, n), (key, value))
+    vc.ensure("frame", state_keys(vc, h) == ["fields"])
+
+
+@scenario("add", functions=[MD + ".add", H + ".insert", MD + ".insert"])
+def s_add(vc):
+    n = vc.case("n", LENS)
+    h, names, vals = mk_headers(vc, n)
+    key, value = vc.sym_bytes("key"), vc.sym_bytes("value")
+    out = vc.call(MD + ".add", h, key, value)
+    vc.ensure("no_exception", out.ok)
+    if not out.ok:
+        return
+    ensure_inserted(vc, "post", fields_of(vc, h), names, vals, n, (key, value))
+    vc.ensure("frame", state_keys(vc, h) == ["fields"])
+
+
+# ---------------------------------------------------------------------------------------------------------------
+# iteration, length, equality, copy, state
+
+def first_occurrence(vc, names):
+    return [Not(Or(*[same_name(vc, names[j], names[i]) for j in range(i)])) if i else True for i in range(len(names))]
+
+
+@scenario("iter", functions=[H + ".__iter__", MD + ".__iter__"])
+def s_iter(vc):
+    n = vc.case("n", LENS)
+    h, names, vals = mk_headers(vc, n)
+    out = vc.call(H + ".__iter__", h)
+    vc.ensure("no_exception", out.ok)
+    if not out.ok:
+        return
+    first = first_occurrence(vc, names)
+    ensure_filter(vc, "keys", seq_result(out), [(first[i], native_(vc, names[i])) for i in range(n)])
+    ensure_fields_unchanged(vc, "pure", h, names, vals)
+
+
+@scenario("len", functions=[MD + ".__len__"])
+def s_len(vc):
+    n = vc.case("n", LENS)
+    h, names, vals = mk_headers(vc, n)
+    out = vc.call(MD + ".__len__", h)
+    vc.ensure("no_exception", out.ok)
+    if not out.ok:
+        return
+    vc.ensure("distinct_names", out.result == count(first_occurrence(vc, names)))
+    ensure_fields_unchanged(vc, "pure", h, names, vals)
+
+
+@scenario("items_multi", functions=[H + ".items", MD + ".keys", MD + ".values"])
+def s_items(vc):
+    n = vc.case("n", LENS[:4])
+    h, names, vals = mk_headers(vc, n)
+    out = vc.call(H + ".items", h, True)
+    vc.ensure("items.no_exception", out.ok)
+    if out.ok:
+        got = seq_result(out)
+        vc.ensure("items.all_fields_in_order", And(len(got) == n, *[pair_eq(got[i], (native_(vc, names[i]), native_(vc, vals[i]))) for i in range(min(n, len(got)))]))
+    out = vc.call(MD + ".keys", h, True)
+    vc.ensure("keys.no_exception", out.ok)
+    if out.ok:
+        got = seq_result(out)
+        vc.ensure("keys.all_names_in_order", And(len(got) == n, *[got[i] == native_(vc, names[i]) for i in range(min(n, len(got)))]))
+    out = vc.call(MD + ".values", h, True)
+    vc.ensure("values.no_exception", out.ok)
+    if out.ok:
+        got = seq_result(out)
+        vc.ensure("values.all_values_in_order", And(len(got) == n, *[got[i] == native_(vc, vals[i]) for i in range(min(n, len(got)))]))
+    ensure_fields_unchanged(vc, "pure", h, names, vals)
+
+
+@scenario("eq", functions=[MD + ".__eq__"])
+def s_eq(vc):
+    n1 = vc.case("n1", [0, 1, 2, 3])
+    n2 = vc.case("n2", [0, 1, 2, 3])
+    other_kind = vc.case("other", ["Headers", "MultiDict", "tuple"])
+    h1, names1, vals1 = mk_headers(vc, n1, "a_")
+    names2, vals2, fields2 = mk_fields(vc, n2, "b_")
+    if other_kind == "tuple":
+        other = vc.lift(fields2)
+    else:
+        other = vc.new(H if other_kind == "Headers" else "mitmproxy.coretypes.multidict:MultiDict", fields=fields2)
+    out = vc.call(MD + ".__eq__", h1, other)
+    vc.ensure("no_exception", out.ok)
+    if not out.ok:
+        return
+    same = And(n1 == n2, *[And(names1[i] == names2[i], vals1[i] == vals2[i]) for i in range(min(n1, n2))])
+    vc.ensure("equal_iff_same_field_sequence", Iff(out.result, And(other_kind != "tuple", same)))
+    ensure_fields_unchanged(vc, "pure", h1, names1, vals1)
+
+
+@scenario("copy_state", functions=["mitmproxy.coretypes.serializable:Serializable.copy", "mitmproxy.coretypes.multidict:MultiDict.get_state",
+                                   "mitmproxy.coretypes.multidict:MultiDict.from_state", "mitmproxy.coretypes.multidict:MultiDict.set_state", H + ".__init__"])
+def s_copy(vc):
+    n = vc.case("n", LENS[:4])
+    h, names, vals = mk_headers(vc, n)
+    out = vc.call("mitmproxy.coretypes.serializable:Serializable.copy", h)
+    vc.ensure("copy.no_exception", out.ok)
+    if not out.ok:
+        return
+    c = out.result
+    vc.ensure("copy.is_new_headers_object", c is not h and isa(c, type(h) if vc.mode == "native" else h.cls))
+    cf = fields_of(vc, c)
+    vc.ensure("copy.same_fields", And(len(cf) == n, *[pair_eq(cf[i], (names[i], vals[i])) for i in range(min(n, len(cf)))]))
+    vc.ensure("copy.equal_to_original", vc.eq(c, h))
+    # editing the copy does not touch the original
+    key, value = vc.sym_bytes("key"), vc.sym_bytes("value")
+    out2 = vc.call(MD + ".add", c, key, value)
+    vc.ensure("copy.edit_ok", out2.ok)
+    ensure_fields_unchanged(vc, "copy.original", h, names, vals)
+    # get_state / set_state round trip (state = the fields; after deserialisation it arrives as lists)
+    st = vc.call("mitmproxy.coretypes.multidict:MultiDict.get_state", h)
+    vc.ensure("state.get_ok", st.ok)
+    if st.ok:
+        sf = items_of(st.result)
+        vc.ensure("state.is_fields", And(len(sf) == n, *[pair_eq(sf[i], (names[i], vals[i])) for i in range(min(n, len(sf)))]))
+    as_lists = vc.list([vc.list([names[i], vals[i]]) for i in range(n)])
+    h2 = vc.new(H, fields=())
+    st2 = vc.call("mitmproxy.coretypes.multidict:MultiDict.set_state", h2, as_lists)
+    vc.ensure("state.set_ok", st2.ok)
+    if st2.ok:
+        ensure_fields_unchanged(vc, "state.set", h2, names, vals)
+        vc.ensure("state.set_fields_are_tuples", isa(h2.fields["fields"] if vc.mode == "sym" else h2.fields, tuple) and all(isa(f, tuple) for f in fields_of(vc, h2)))
+
+
+# ---------------------------------------------------------------------------------------------------------------
+# HTTP/1 serialisation and parsing
+
+def wire(names, vals):
+    r = b""
+    for nm, v in zip(names, vals):
+        r = r + nm + b": " + v + b"\r\n"
+    return r
+
+
+@scenario("bytes", functions=[H + ".__bytes__"])
+def s_bytes(vc):
+    n = vc.case("n", LENS + [K + 1, K + 2])
+    h, names, vals = mk_headers(vc, n)
+    out = vc.call(H + ".__bytes__", h)
+    vc.ensure("no_exception", out.ok)
+    if not out.ok:
+        return
+    vc.ensure("one_line_per_field_in_order", out.result == wire(names, vals))
+    ensure_fields_unchanged(vc, "pure", h, names, vals)
+
+
+def valid_field(vc, name, value):
+    """what the round trip needs of a field (implied by RFC 9110 §5.1/§5.5 validity: name is a non-empty token, value has no
+    leading/trailing whitespace): non-empty name without ':' that does not start with SP/HTAB; value neither starts nor ends
+    with ASCII whitespace."""
+    ws = b" \t\n\r\x0b\x0c"
+    if vc.mode == "native":
+        return len(name) > 0 and b":" not in name and name[:1] not in (b" ", b"\t") and (value == b"" or (value[:1] not in [bytes([c]) for c in ws] and value[-1:] not in [bytes([c]) for c in ws]))
+    import z3
+    from pyvc.libx_httpmodel import is_ws_free_ends
+    return And(len_(name) > 0, Not(contains(name, b":")), code_at(name, 0) != 0x20, code_at(name, 0) != 0x09, SBool(is_ws_free_ends(value.t)))
+
+
+@scenario("read_headers.roundtrip", functions=["mitmproxy.net.http.http1.read:_read_headers", H + ".__init__", H + ".__bytes__", MD + ".__eq__"], exact_strip=True)
+def s_roundtrip(vc):
+    n = vc.case("n", LENS[:4])
+    h, names, vals = mk_headers(vc, n)
+    for i in range(n):
+        vc.assume(valid_field(vc, names[i], vals[i]))
+    ser = vc.call(H + ".__bytes__", h)
+    vc.ensure("serialise.ok", ser.ok)
+    if not ser.ok:
+        return
+    # the header block is exactly the CRLF-terminated lines "name: value" (obligation), so a reader that splits at CRLF
+    # hands these lines to _read_headers (the line splitter is h11's ReceiveBuffer: third-party, covered in T2)
+    lines = [names[i] + b": " + vals[i] for i in range(n)]
+    vc.ensure("serialise.lines", ser.result == concat_all([l + b"\r\n" for l in lines]))
+    out = vc.call("mitmproxy.net.http.http1.read:_read_headers", vc.list(lines))
+    vc.ensure("parse.no_exception", out.ok)
+    if not out.ok:
+        return
+    got = fields_of(vc, out.result)
+    vc.ensure("parse.count", len(got) == n)
+    for i in range(min(n, len(got))):
+        vc.ensure(f"parse.name[{i}]", items_of(got[i])[0] == names[i])
+        vc.ensure(f"parse.value[{i}]", items_of(got[i])[1] == vals[i])
+    vc.ensure("parse.equals_original", vc.eq(out.result, h))
